@@ -9,10 +9,21 @@ prelude's model of the two `StreamReader` primitives.
   BUFFER that may still grow (ready / wait).  `prim_*` show the two are the same contract: where the
   buffer primitive is ready the prelude primitive returns the same bytes and leaves the same rest;
   where it would wait and nothing more comes, the prelude primitive gives the end-of-stream answer.
-* `translated_read_chunked`: the Lean definition translated from the source text of
-  `FrameReader.read`, run on the concatenation, has the outcome and leaves the bytes that the
-  resumable machine has under ANY chunking — the chunk independence of C04 is a statement about
-  what `stream.py` says today.
+* `runScan_is_read1`, `runHeader_is_readexactly`, `runBody_is_readexactly`: the three phases of the hand-written
+  resumable machine (`Model/ReaderChunks`: `runScan`, `runHeader`, `runBody`) use exactly these buffer primitives — one
+  `read(1)` per scanned byte, `readexactly(HEADER_SIZE - 1)`, `readexactly(len - HEADER_SIZE)` — suspend exactly where the
+  primitive would wait, and do nothing else with the buffer.
+* `translated_read_chunked`: the Lean definition translated from the source text of `FrameReader.read` is run ON THE
+  CONCATENATION of the chunks (the translator renders `async def` as a state monad over the complete stream; it has no
+  suspended form); there it has the outcome and leaves the bytes that the resumable machine has under ANY chunking.
+
+What is NOT a theorem about the translated code (round-8 audit, item 8): that the `RState` machine IS the suspended form
+of `FrameReader.read` ("nothing but the state survives a suspension").  The machine is hand-written; it is tied to the
+code (a) by the three `run*_is_*` lemmas + `prim_*` (same primitives, same arguments, same end-of-stream answers as the
+prelude's), (b) by `translated_read_chunked` (same result on every complete stream) and (c) by the harness's observation
+of the implementation at EVERY suspension (harness/c04.py / c14.py: awaited primitive, its argument, buffer length,
+bytes taken) — correspondence, not proof.  So C04's chunk independence is a theorem about the machine, and a statement
+about what `stream.py` says today through (b) for complete streams and through (c) for its suspensions.
 -/
 namespace PlumVerif.TieChunks
 open PlumVerif PlumVerif.Py PlumVerif.TieReader
@@ -74,6 +85,100 @@ theorem runBody_is_readexactly (l0 l1 rc sd et ev : UInt8) (buf : List UInt8) :
   unfold runBody bufReadExactly
   simp only
   split <;> rfl
+
+/-- the machine's three steps ARE these primitives: header.  `await readexactly(HEADER_SIZE - 1)`: fewer than 6 bytes
+buffered: suspended in `header`, buffer untouched; else the 6 bytes are taken, the length gate is applied and the
+body phase runs on the rest.  (The last arm is unreachable: `readexactly(6)` returns 6 bytes.) -/
+theorem runHeader_is_readexactly (buf : List UInt8) :
+    runHeader buf =
+      match bufReadExactly (Gen.headerSize - 1) buf with
+      | .wait => .blocked .header buf
+      | .ready [l0, l1, rc, sd, et, ev] rest =>
+        if l0.toNat + 256 * l1.toNat > Gen.maxFrameLength ∨ l0.toNat + 256 * l1.toNat < Gen.minFrameLength
+        then .done (.protoErr .badLength) rest
+        else runBody l0 l1 rc sd et ev rest
+      | .ready _ _ => .blocked .header buf := by
+  match buf with
+  | [] => rfl
+  | [_] => rfl
+  | [_, _] => rfl
+  | [_, _, _] => rfl
+  | [_, _, _, _] => rfl
+  | [_, _, _, _, _] => rfl
+  | l0 :: l1 :: rc :: sd :: et :: ev :: r1 =>
+    have hn : ¬ ((l0 :: l1 :: rc :: sd :: et :: ev :: r1).length < Gen.headerSize - 1) := by
+      simp [Gen.headerSize]
+    simp only [runHeader, bufReadExactly, if_neg hn]
+    rfl
+
+/-- the machine's three steps ARE these primitives: delimiter hunt.  `while buffer := await read(1)`: buffer empty:
+suspended in `scanning`; else ONE byte is taken; if it is the start delimiter the header phase runs on the rest, else
+the hunt goes on -/
+theorem runScan_is_read1 (buf : List UInt8) :
+    runScan buf =
+      match bufRead1 buf with
+      | .wait => .blocked .scanning buf
+      | .ready bs rest => if bs = [startByte] then runHeader rest else runScan rest := by
+  cases buf with
+  | nil => rfl
+  | cons b r =>
+    simp only [runScan, bufRead1, List.cons.injEq, and_true]
+
+/-- the suspension states are the primitives' waits, with their arguments: `scanning` waits in `read(1)` for 1 byte,
+`header` in `readexactly(6)`, `body` in `readexactly(len - 7)` -/
+theorem resume_blocked_is_wait (st st' : RState) (buf b : List UInt8) (h : resume st buf = .blocked st' b) :
+    match st' with
+    | .scanning => bufRead1 b = .wait
+    | .header => bufReadExactly (Gen.headerSize - 1) b = .wait
+    | .body l0 l1 _ _ _ _ => bufReadExactly (l0.toNat + 256 * l1.toNat - Gen.headerSize) b = .wait := by
+  have hbody : ∀ l0 l1 rc sd et ev (x : List UInt8), runBody l0 l1 rc sd et ev x = .blocked st' b →
+      st' = .body l0 l1 rc sd et ev ∧ bufReadExactly (l0.toNat + 256 * l1.toNat - Gen.headerSize) b = .wait := by
+    intro l0 l1 rc sd et ev x hx
+    rw [runBody_is_readexactly] at hx
+    cases hw : bufReadExactly (l0.toNat + 256 * l1.toNat - Gen.headerSize) x with
+    | wait => rw [hw] at hx; simp only [RRes.blocked.injEq] at hx; obtain ⟨rfl, rfl⟩ := hx; exact ⟨rfl, hw⟩
+    | ready a r => rw [hw] at hx; cases hx
+  have hheader : ∀ (x : List UInt8), runHeader x = .blocked st' b →
+      (st' = .header ∧ bufReadExactly (Gen.headerSize - 1) b = .wait) ∨
+      ∃ l0 l1 rc sd et ev, st' = .body l0 l1 rc sd et ev ∧
+        bufReadExactly (l0.toNat + 256 * l1.toNat - Gen.headerSize) b = .wait := by
+    intro x hx
+    match x with
+    | [] | [_] | [_, _] | [_, _, _] | [_, _, _, _] | [_, _, _, _, _] =>
+      simp only [runHeader, RRes.blocked.injEq] at hx
+      obtain ⟨rfl, rfl⟩ := hx
+      exact .inl ⟨rfl, by simp [bufReadExactly, Gen.headerSize]⟩
+    | l0 :: l1 :: rc :: sd :: et :: ev :: r1 =>
+      simp only [runHeader] at hx
+      split at hx
+      · cases hx
+      · exact .inr ⟨l0, l1, rc, sd, et, ev, hbody _ _ _ _ _ _ _ hx⟩
+  have hscan : ∀ (x : List UInt8), runScan x = .blocked st' b →
+      (st' = .scanning ∧ bufRead1 b = .wait) ∨
+      (st' = .header ∧ bufReadExactly (Gen.headerSize - 1) b = .wait) ∨
+      ∃ l0 l1 rc sd et ev, st' = .body l0 l1 rc sd et ev ∧
+        bufReadExactly (l0.toNat + 256 * l1.toNat - Gen.headerSize) b = .wait := by
+    intro x
+    induction x with
+    | nil =>
+      intro hx
+      simp only [runScan, RRes.blocked.injEq] at hx
+      obtain ⟨rfl, rfl⟩ := hx
+      exact .inl ⟨rfl, rfl⟩
+    | cons y ys ih =>
+      intro hx
+      simp only [runScan] at hx
+      split at hx
+      · exact .inr (hheader _ hx)
+      · exact ih hx
+  cases st with
+  | scanning =>
+    rcases hscan _ h with ⟨rfl, hw⟩ | ⟨rfl, hw⟩ | ⟨l0, l1, rc, sd, et, ev, rfl, hw⟩ <;> exact hw
+  | header =>
+    rcases hheader _ h with ⟨rfl, hw⟩ | ⟨l0, l1, rc, sd, et, ev, rfl, hw⟩ <;> exact hw
+  | body l0 l1 rc sd et ev =>
+    obtain ⟨rfl, hw⟩ := hbody _ _ _ _ _ _ _ h
+    exact hw
 
 /-- **the translated `FrameReader.read` under any chunking**: for every buffer content, every
 chunk list and enough fuel, the function translated from stream.py, run on the concatenation,
